@@ -17,6 +17,7 @@ static int init_pubsub_fd(m_mod_t *mod);
 static int manage_srcs(m_mod_t *mod, m_ctx_t *c, int flag, bool stop);
 static void reset_module(m_mod_t *mod);
 static int optional_hook(m_mod_t *mod, enum mod_hook req_hook);
+static int stop_as(m_mod_t *mod, bool stopping, m_mod_states final_state);
 
 static void module_dtor(void *data) {
     m_mod_t *mod = (m_mod_t *)data;
@@ -262,6 +263,10 @@ int start(m_mod_t *mod, bool starting) {
 }
 
 int stop(m_mod_t *mod, bool stopping) {
+    return stop_as(mod, stopping, stopping ? M_MOD_STOPPED : M_MOD_PAUSED);
+}
+
+static int stop_as(m_mod_t *mod, bool stopping, m_mod_states final_state) {
     static const char *errors[] = { "Failed to pause module.", "Failed to stop module." };
     M_MOD_CTX(mod);
 
@@ -271,7 +276,7 @@ int stop(m_mod_t *mod, bool stopping) {
     if (m_mod_is(mod, M_MOD_RUNNING)) {
         c->stats.running_modules--;
     }
-    mod->state = stopping ? M_MOD_STOPPED : M_MOD_PAUSED;
+    mod->state = final_state;
 
     /*
      * When module gets stopped, its write-end pubsub fd is closed too 
@@ -285,17 +290,13 @@ int stop(m_mod_t *mod, bool stopping) {
         ret = optional_hook(mod, MOD_STOP);
     }
     
-    switch (ret) {
-    case -ENOENT:
+    if (ret == -ENOENT && final_state != M_MOD_ZOMBIE) {
         // module was deregistered in on_stop() hook
-        break;
-    default:
-        M_DEBUG("%s '%s'.\n", stopping ? "Stopped" : "Paused", mod->name);
-        tell_system_pubsub_msg(NULL, c, mod, M_PS_MOD_STOPPED);
-        ret = 0;
-        break;
+        return ret;
     }
-    return ret;
+    M_DEBUG("%s '%s'.\n", stopping ? "Stopped" : "Paused", mod->name);
+    tell_system_pubsub_msg(NULL, c, mod, M_PS_MOD_STOPPED);
+    return 0;
 }
 
 int mod_deregister(m_mod_t **mod, bool from_user) {
@@ -317,9 +318,11 @@ int mod_deregister(m_mod_t **mod, bool from_user) {
         ret = m_map_remove(c->modules, m->name);
         
         if (ret == 0) {
-            /* Stop module */
-            stop(m, true);
-            m->state = M_MOD_ZOMBIE;
+            /*
+             * Stop module; it is a zombie already when its on_stop() hook runs:
+             * the hook cannot start again a module that is going away.
+             */
+            stop_as(m, true, M_MOD_ZOMBIE);
             
             /* Free FS internal data */
             fs_cleanup(m);
